@@ -111,8 +111,10 @@ def gen_case(rnd, tier: str, i: Any) -> Dict[str, Any]:
         return sorted(rnd.sample(steps, rnd.randint(1, len(steps))))
 
     self_cmp = rnd.random() < 0.2
+    # ONE LabeledTrace object handed in as control and as test: two ranks / iterations of one job, or the trace against itself
+    one_object = rnd.random() < 0.15
     labels = rnd.choice([["Control", "Test"], ["Control", "Test"], ["baseline", "candidate"], ["run", "run"], [None, None]])
-    return {"control": control, "test": control if self_cmp else test, "self": self_cmp, "mode": mode, "labels": labels,
+    return {"control": control, "test": control if (self_cmp or one_object) else test, "self": self_cmp, "one_object": one_object, "mode": mode, "labels": labels,
             "classes_first": rnd.random() < 0.5, "dual_cat": dual_cat, "second_table": rnd.random() < 0.4,
             # what the LabeledTrace is made from: a directory, or a Trace object in one of the states a session leaves it in
             "made_from": [rnd.choice(["dir", "dir", "trace_fresh", "trace_parsed", "trace_loaded"]) for _ in range(2)],
@@ -149,6 +151,13 @@ def _judge_table(comp, mods, sel, short, lc, lt, res, what):  # noqa: ANN001
     got_names = set(comp.index.tolist())
     if got_names != names:
         res.bad("one-row-per-name", f"{what}: names only in table {sorted(got_names - names)[:4]}; names missing from table {sorted(names - got_names)[:4]} (selection {sel})")
+    cols = list(comp.columns)
+    if len(cols) < 6 or not (str(cols[0]).endswith("_counts") and str(cols[1]).endswith("_total_duration") and str(cols[2]).endswith("_counts")
+                             and str(cols[3]).endswith("_total_duration") and cols[0] != cols[2] and cols[4:6] == ["diff_counts", "diff_duration"]
+                             and str(cols[0]).startswith(str(lc.label))):
+        res.bad("table-columns", f"{what}: columns {cols} are not <control>_counts, <control>_total_duration, <test>_counts, <test>_total_duration, "
+                f"diff_counts, diff_duration (labels {lc.label!r}, {lt.label!r})")
+        return cc, cd, tc, td, names
     if len(comp.index) != len(got_names):
         dup = [n for n, c in collections.Counter(comp.index.tolist()).items() if c > 1]
         res.bad("one-row-per-name", f"{what}: several rows for the names {dup[:4]}")
@@ -157,8 +166,8 @@ def _judge_table(comp, mods, sel, short, lc, lt, res, what):  # noqa: ANN001
     for nm in names & got_names:
         res.counters["names_judged"] += 1
         row = comp.loc[nm]
-        got = (row[f"{lc.label}_counts"], row[f"{lt.label}_counts"], row[f"{lc.label}_total_duration"], row[f"{lt.label}_total_duration"],
-               row["diff_counts"], row["diff_duration"])
+        # columns: <control>_counts, <control>_total_duration, <test>_counts, <test>_total_duration, diff_counts, diff_duration, ...
+        got = (row.iloc[0], row.iloc[2], row.iloc[1], row.iloc[3], row["diff_counts"], row["diff_duration"])
         exp = (cc[nm], tc[nm], cd[nm], td[nm], tc[nm] - cc[nm], td[nm] - cd[nm])
         if any(isinstance(x, float) and x != int(x) for x in exp):
             res.counters["fractional_duration_rows"] += 1
@@ -210,6 +219,10 @@ def run_case(case: Dict[str, Any], ctx: Any) -> core.CaseResult:
         ok2, lt = drv.guard(res, "LabeledTrace(test)", LabeledTrace, lab[1], tt, dtt)
         if not (ok and ok2):
             return res
+        if case.get("one_object"):
+            lt = lc
+            label_before = lc.label
+            res.counters["one_object_as_control_and_test"] += 1
         if lc.label == lt.label:
             res.counters["identical_labels"] += 1
         dev = getattr(DeviceType, sel["device"])
@@ -268,6 +281,8 @@ def run_case(case: Dict[str, Any], ctx: Any) -> core.CaseResult:
             n_nonempty = sum(1 for k in exp_cls if exp_cls[k])
         else:
             n_nonempty = 0
+        if case.get("one_object") and lc.label != label_before:
+            res.bad("labels-left-alone", f"the comparison changed the label of the trace object it was given: {label_before!r} became {lc.label!r}")
         res.nontrivial = n_nonempty >= 3 or any(isinstance(sel[f"{s}_rank"], list) and 2 <= len(sel[f"{s}_rank"]) < len(mods[s]) for s in ("control", "test"))
         res.trivial_reason = "fewer than 3 non-empty change classes and no proper rank subset"
         res.key = core.digest([case["control"], case["test"] if not case["self"] else "self", sel])
